@@ -53,8 +53,8 @@ theorem getElem_inj_of_names_nodup {l : List (String × Nat)} (hnd : (l.map (·.
   exact (List.getElem_inj hnd).mp h1
 
 /-- all access paths of an owning container of a well-formed graph denote the same entry -/
-theorem WF.views_agree {g : Graph} (h : WF g) {p : Path} {cn : String} {c : Cont}
-    (hc : openCont g p cn = some c) (hpl : isPlainLike c.info.flavour = true)
+theorem WF.views_agree_of {g : Graph} (h : WF g) {c : Cont}
+    (hok : ∀ l ∈ contEntries g c, EntryOk g c.info l) (hpl : isPlainLike c.info.flavour = true)
     (j : Nat) (hj : j < contLen g c) :
     contGet g c (.pos j) = .ok ((contEntries g c)[j]'hj) ∧
     g.getAttr ((contEntries g c)[j]'hj).2 "name" = some ((contEntries g c)[j]'hj).1 ∧
@@ -65,7 +65,6 @@ theorem WF.views_agree {g : Graph} (h : WF g) {p : Path} {cn : String} {c : Cont
       contGet g c (.str ((contEntries g c)[j]'hj).1) = .ok ((contEntries g c)[j]'hj) ∧
       contHas g c (.str ((contEntries g c)[j]'hj).1) = .ok true) ∧
     contHas g c (.ent ((contEntries g c)[j]'hj).2) = .ok true := by
-  have hok := h.entries_ok hc
   have hnd := h.entries_nodup c
   have hmem : (contEntries g c)[j]'hj ∈ contEntries g c := List.getElem_mem _
   have he := hok _ hmem
@@ -95,6 +94,21 @@ theorem WF.views_agree {g : Graph} (h : WF g) {p : Path} {cn : String} {c : Cont
     have hk' : (kindOf g ((contEntries g c)[j]'hj).2 != c.info.item) = false := by simpa using hkind
     simp only [hk', Bool.false_eq_true, ↓reduceIte]
     cases hfl : c.info.flavour <;> simp_all [isPlainLike]
+
+/-- all access paths of an owning container of a well-formed graph denote the same entry -/
+theorem WF.views_agree {g : Graph} (h : WF g) {p : Path} {cn : String} {c : Cont}
+    (hc : openCont g p cn = some c) (hpl : isPlainLike c.info.flavour = true)
+    (j : Nat) (hj : j < contLen g c) :
+    contGet g c (.pos j) = .ok ((contEntries g c)[j]'hj) ∧
+    g.getAttr ((contEntries g c)[j]'hj).2 "name" = some ((contEntries g c)[j]'hj).1 ∧
+    (∃ i, g.entityId ((contEntries g c)[j]'hj).2 = some i ∧ isUuid i = true ∧
+      contGet g c (.str i) = .ok ((contEntries g c)[j]'hj) ∧ contHas g c (.str i) = .ok true) ∧
+    ((isUuid ((contEntries g c)[j]'hj).1 = true →
+        ∀ l ∈ contEntries g c, g.entityId l.2 ≠ some ((contEntries g c)[j]'hj).1) →
+      contGet g c (.str ((contEntries g c)[j]'hj).1) = .ok ((contEntries g c)[j]'hj) ∧
+      contHas g c (.str ((contEntries g c)[j]'hj).1) = .ok true) ∧
+    contHas g c (.ent ((contEntries g c)[j]'hj).2) = .ok true :=
+  h.views_agree_of (h.entries_ok hc) hpl j hj
 
 /-! ## deletion from a plain container removes exactly the addressed entry -/
 
@@ -126,14 +140,13 @@ theorem contGet_mem {g : Graph} {c : Cont} (hpl : isPlainLike c.info.flavour = t
       · exact List.mem_of_find?_eq_some this
     · exact List.mem_of_find?_eq_some this
 
-theorem WF.contDel_plain {g : Graph} (h : WF g) {p : Path} {cn : String} {c : Cont}
-    (hc : openCont g p cn = some c) (hfl : c.info.flavour = .plain) {key : Key} {e : String × Nat}
+theorem WF.contDel_plain_of {g : Graph} (h : WF g) {c : Cont}
+    (hok : ∀ l ∈ contEntries g c, EntryOk g c.info l) (hfl : c.info.flavour = .plain) {key : Key} {e : String × Nat}
     (hget : contGet g c key = .ok e) :
     ∃ g', Store.contDel g c key = .ok g' ∧
       cLinks g' c.node = (contEntries g c).filter (fun l => l != e) := by
   have hpl : isPlainLike c.info.flavour = true := by rw [hfl]; rfl
   have hmem := contGet_mem hpl hget
-  have hok := h.entries_ok hc
   obtain ⟨hkind, ⟨i, hid⟩, _⟩ := hok e hmem
   have hk' : (kindOf g e.2 != c.info.item) = false := by simpa using hkind
   refine ⟨g.deleteAll [i], ?_, ?_⟩
@@ -165,6 +178,13 @@ theorem WF.contDel_plain {g : Graph} (h : WF g) {p : Path} {cn : String} {c : Co
       · have : l ≠ e := by
           intro e'; subst e'; rw [hid] at hid'; exact hii (Option.some.inj hid').symm
         simp [hii, this]
+
+theorem WF.contDel_plain {g : Graph} (h : WF g) {p : Path} {cn : String} {c : Cont}
+    (hc : openCont g p cn = some c) (hfl : c.info.flavour = .plain) {key : Key} {e : String × Nat}
+    (hget : contGet g c key = .ok e) :
+    ∃ g', Store.contDel g c key = .ok g' ∧
+      cLinks g' c.node = (contEntries g c).filter (fun l => l != e) :=
+  h.contDel_plain_of (h.entries_ok hc) hfl hget
 
 /-! ## link lists -/
 
